@@ -336,7 +336,19 @@ func genScope(seed uint64, ncases int, out string) {
 			o.Line(genVS(r, nss, hosts, i).line()...)
 		}
 		for i, n := 0, r.Intn(5); i < n; i++ {
-			o.Line(genDR(r, nss, hosts, i).line()...)
+			d := genDR(r, nss, hosts, i)
+			o.Line(d.line()...)
+			// a sibling rule for the same host in the same namespace with its own exportTo
+			// (consolidation of rules with different export sets)
+			if r.Chance(1, 3) {
+				sib := genDR(r, nss, hosts, i)
+				sib.name, sib.ns, sib.host = d.name+"b", d.ns, d.host
+				sib.subsets = []string{"s-" + sib.name}
+				if r.Chance(1, 2) {
+					sib.selector = nil
+				}
+				o.Line(sib.line()...)
+			}
 		}
 		for i, n := 0, r.Intn(4); i < n; i++ {
 			o.Line(genSidecar(r, nss, hosts, i, m.root).line()...)
